@@ -8,7 +8,7 @@ cp $src/patch.diff $dst/patch.diff; cp $src/demo.rs $dst/demo.rs; cp $src/notes.
 cd $wt || exit 9
 git checkout -q -- . ; rm -f tests/seed_demo.rs
 git apply $dst/patch.diff || { echo "patch does not apply" > $dst/confirm.log; exit 9; }
-suite=$(cargo test --offline --lib --test ristretto --doc 2>&1 | grep -E "^test result" | tr '\n' ' ')
+suite=$( (cargo test --offline --lib --test ristretto 2>&1; cargo test --offline --doc 2>&1) | grep -E "^test result" | tr "\n" " ")
 suite_ok=$(echo "$suite" | grep -c "FAILED")
 cp $dst/demo.rs tests/seed_demo.rs
 demo_with=$(cargo test --offline --test seed_demo 2>&1 | grep -E "^test result" | tr '\n' ' ')
@@ -23,7 +23,7 @@ ok = ('FAILED' not in suite and 'ok.' in suite) and ('FAILED' in dw) and ('FAILE
 json.dump({"id":id_,"breaks_property":prop,"confirmed":ok,
   "existing_suite_with_change":suite.strip(),"demo_with_change":dw.strip(),"demo_without_change":dwo.strip(),
   "what_it_needs_to_manifest":notes[:1500],
-  "commands":["git apply patch.diff","cargo test --offline --lib --test ristretto --doc","cargo test --offline --test seed_demo (with change)","git checkout -- src; cargo test --offline --test seed_demo (without change)"]},
+  "commands":["git apply patch.diff","cargo test --offline --lib --test ristretto; cargo test --offline --doc","cargo test --offline --test seed_demo (with change)","git checkout -- src; cargo test --offline --test seed_demo (without change)"]},
   open(dst+'/meta.json','w'),indent=1)
 print(id_,"confirmed" if ok else "NOT CONFIRMED",suite,"|",dw,"|",dwo)
 PY
